@@ -1,6 +1,7 @@
 import Flurry.Lemmas.LinBasic
 import Flurry.Lemmas.LinSearch
 import Flurry.Lemmas.LinPoints
+import Flurry.Lemmas.LinTrace
 /-! # Linearizability lemmas: summary
 
 * `LinBasic.lean`: `rtOk`, `realTimeOk_iff`, `perm_range_of_length_of_mem`, `isPermOfRange_iff`,
@@ -10,4 +11,6 @@ import Flurry.Lemmas.LinPoints
 * `LinPoints.lean`: `replay_append`, `replay_append_history`, **`lin_of_points`**, `pointOrder`,
   `lin_of_points_sorted`, `spec_read_after_ins`, `spec_tryIns_keeps`, `spec_absent_stays`,
   `spec_present_change`, **`spec_cipInc_counts`**, `lin_snoc_get`, **`lin_final_read`** (with
-  `inv ≤ resp` hypotheses; counterexample `exBadInterval` without), examples by `decide`. -/
+  `inv ≤ resp` hypotheses; counterexample `exBadInterval` without), examples by `decide`.
+* `LinTrace.lean`: `isRead`, **`lin_of_trace`** (a trace `A : Nat → KSt` of abstract states, writers
+  change it at their pairwise distinct points, readers read it at their points; non-strict point order) -/
